@@ -52,12 +52,16 @@ func (c sideCfg) String() string {
 
 // side is one real instance of a twin pair.
 type side struct {
-	kind   string // MemFS | OrefaFS
-	win    bool
-	v      avfs.VFS
-	root   string // "/" or `C:\`
-	cfg    sideCfg
-	sysTop map[string]bool // cfg.sysDirs: names present in the root directory right after construction (the system area)
+	kind string // MemFS | OrefaFS
+	win  bool
+	v    avfs.VFS
+	root string // "/" or `C:\` (the added volume's root for "@D" systems)
+	// sysRoot is the root the constructor worked on ("/" or `C:\`): the system
+	// area and the default locations stay there when the instance is moved to an
+	// added volume
+	sysRoot string
+	cfg     sideCfg
+	sysTop  map[string]bool // cfg.sysDirs: names present in the root directory right after construction (the system area)
 	// hideSys: the running call lists from outside the default locations; the
 	// entries of the system area (different names, depths and number on the two
 	// types) are left out of what it returns
@@ -97,6 +101,8 @@ func newSideCfg(kind string, win bool, cfg sideCfg) (s *side, chdir result, err 
 	if win {
 		s.root, tmp = `C:\`, `C:\tmp`
 	}
+
+	s.sysRoot = s.root
 
 	dirs := []avfs.DirInfo{{Path: tmp, Perm: 0o777}}
 	if cfg.sysDirs {
@@ -156,8 +162,9 @@ func newSideCfg(kind string, win bool, cfg sideCfg) (s *side, chdir result, err 
 //	"$HOMEUSER"  avfs.HomeDirUser(vfs, vol, vfs.User())   (kinds with an identity manager)
 //	"$TMP/a"     Join(vfs.TempDir(), "a")
 //
-// vol is the volume of the instance's root ("" resp. "C:"), the base path the
-// constructors themselves give to avfs.SystemDirs. The other spelling in use,
+// vol is the volume the constructor worked on ("" resp. "C:", also when the
+// instance was moved to an added volume afterwards: system "@D+sys"), the base
+// path the constructors themselves give to avfs.SystemDirs. The other spelling in use,
 // base path "" on both types (a rooted path without volume on the Windows
 // type), is judged in part (A), runDefaults.
 var allRoles = []string{"$TMP", "$HOME", "$HOMEUSER"}
@@ -182,9 +189,9 @@ func (s *side) rolePath(role string) string {
 	case "$TMP":
 		return s.v.TempDir()
 	case "$HOME":
-		return avfs.HomeDir(s.v, avfs.VolumeName(s.v, s.root))
+		return avfs.HomeDir(s.v, avfs.VolumeName(s.v, s.sysRoot))
 	case "$HOMEUSER":
-		return avfs.HomeDirUser(s.v, avfs.VolumeName(s.v, s.root), s.v.User())
+		return avfs.HomeDirUser(s.v, avfs.VolumeName(s.v, s.sysRoot), s.v.User())
 	}
 
 	panic("c17: unknown role " + role)
@@ -198,7 +205,7 @@ func (s *side) obsRolePath(role string) string {
 	p := s.v.Join(s.rolePath(role))
 
 	if !s.v.IsAbs(p) && p != "" && avfs.IsPathSeparator(s.v, p[0]) {
-		p = avfs.VolumeName(s.v, s.root) + p
+		p = avfs.VolumeName(s.v, s.sysRoot) + p
 	}
 
 	return p
@@ -273,8 +280,9 @@ func (s *side) path(p string) string {
 // does. Where the volume is left out the meaning depends on the current
 // directory, which is why the dimension is crossed with Chdir (itself spelled).
 // A rooted spelling is only used while the current directory is on the volume
-// of the path (always, here: an instance of part (C) lives on one volume);
-// otherwise spell keeps the volume.
+// of the path (an instance of part (C) lives on one volume, except the default
+// locations of system "@D+sys", which stay on C: while the current directory
+// is on D:); otherwise spell keeps the volume.
 var (
 	absSpellings = []string{"f", "r", "rf"}
 	relSpellings = []string{"f"}
@@ -573,7 +581,8 @@ func (s *side) roleNorm(q string) string {
 
 	for _, r := range s.roles() {
 		rp := s.plainNorm(s.rolePath(r))
-		if len(rp) > bestLen && strings.HasPrefix(rp, "/") && (q == rp || strings.HasPrefix(q, rp+"/")) {
+		// "/..." or, the instance living on an added volume, "C:/..." (plainNorm)
+		if len(rp) > bestLen && (strings.HasPrefix(rp, "/") || foreignVolRe.MatchString(rp)) && (q == rp || strings.HasPrefix(q, rp+"/")) {
 			best, bestLen = r, len(rp)
 		}
 	}
@@ -584,6 +593,9 @@ func (s *side) roleNorm(q string) string {
 
 	return q
 }
+
+// foreignVolRe matches a portable path that kept its volume (plainNorm).
+var foreignVolRe = regexp.MustCompile(`^[A-Za-z]:/`)
 
 func (s *side) plainNorm(p string) string {
 	if p == "" {
@@ -613,8 +625,9 @@ func (s *side) cwd() string {
 // topCandidates are the top-level names that can exist in the explored universe
 // (used only when the root directory itself cannot be listed). "tmp" is the
 // harness's own system directory: in the default configuration the temporary
-// directory is the role $TMP.
-var topCandidates = []string{"a", "b", "t0", "t1", "tmp"}
+// directory is the role $TMP. "A", "B": the names of the alphabet in the other
+// letter case (entries of their own on both types), in the order of a listing.
+var topCandidates = []string{"A", "B", "a", "b", "t0", "t1", "tmp"}
 
 // dump returns the portable tree dump: fsx.Dump without permission bits and
 // owners (documented as OS-specific), names relative to the root in slash form,
